@@ -1,24 +1,23 @@
 /-
 C05 — the built-in gauge adapters recover exactly what a harness printed.
-Property theorems only; helper lemmas are in `RB/Proofs/Lemmas/AdaptersC05.lean`
-and `RB/Proofs/Lemmas/AdaptersRender.lean`.
+Property theorems only; helper lemmas are in `RB/Proofs/Lemmas/Adapters*.lean`.
 
-What is proved at full strength
+Everything below is proved at full strength; nothing is `_partial`.
 * `c05_collect_ignores_noise*` — lines in no format contribute nothing (all three loops, any classifier);
-* `c05_collect_groups`, `c05_collect_roundtrip`, `c05_fresh_roundtrip` — the data points are exactly the
-  groups "criteria then total", in order, numbered 1..k, stamped with the invocation, whatever noise is
-  interleaved (any classifier);
-* `c05_classify_render_{savina, jmh, time_formatted, time_rss}` — the documented lines of SavinaLog, JMH
-  and Time -f are classified as printed (first path of the backtracking matcher), also when followed
-  by a carriage return;
-* `c05_savina_roundtrip`, `c05_jmh_roundtrip`, `c05_time_formatted_roundtrip` — the three together for whole outputs.
-What stays a hypothesis (`…_partial`): `classify_render` for ReBenchLog, ValidationLog (the alternatives
-of `(?:.*: )?` with a longer prefix must fail), PlainSecondsLog (`float()`) and `time -p`; there the
-classification facts are hypotheses of the generic round-trip theorem (`GoodGroup`), listed in the
-trusted base and exercised by the correspondence check (recognisers against Python's `re`,
-render-then-parse).
+* `c05_collect_groups`, `c05_collect_roundtrip`, `c05_spec_roundtrip`, `c05_fresh_roundtrip` — the data
+  points are exactly the groups "criteria then total", in order, numbered 1..k, stamped with the
+  invocation, whatever noise is interleaved (any classifier);
+* `c05_numeral_value` — the value of a captured numeral, for every documented shape;
+* `classify_render` for every adapter, against the backtracking matcher:
+  `c05_classify_render_{savina, jmh, time_formatted, time_rss, plain, time_p}` (first-path arguments),
+  `c05_rebench_classify_render`, `c05_rebench_extra_classify_render`, `c05_validation_classify_render`,
+  `c05_validation_actors_classify_render` (there the alternatives of `(?:.*: )?` that take a longer
+  prefix are shown to fail; the line may carry any prefix text `w: `);
+* whole outputs: `c05_parse_render_roundtrip_{rebench, validation, savina, jmh, time_formatted, plain, time_p}`.
+The well-formedness predicates of the rendered lines (`RLine.Valid`, `XLine.Valid`, `VLine.Valid`, …)
+are decidable for concrete lines; `example`s show that the documented lines satisfy them.
 -/
-import RB.Proofs.Lemmas.AdaptersRender
+import RB.Proofs.Lemmas.AdaptersSpec
 
 namespace RB.Adapters
 
@@ -370,36 +369,484 @@ example : collectFresh (cfgJMH false) 1 (splitLines "# Warmup Iteration   1: 5.5
            [{ invocation := 1, iteration := 2, criterion := totalName, unit := "ops/s".toList, value := .flt 6 }]] := by
   decide +kernel
 
-/-
-Full statement for ReBenchLog / ValidationLog / PlainSecondsLog (not proved: it needs `classify_render`
-for patterns starting with `(?:.*: )?`, respectively for `float()`):
-
-  theorem c05_parse_render_roundtrip (inv) (its : List Iteration) (noise …) :
-      parse .rebenchLog false inv (render its noise) = .out (.ok (expected inv its))
--/
-
-/-- `parse_render_roundtrip_partial` for the four adapters with the open-data-point loop: with the
-`classify_render` facts of the rendered lines as hypothesis (`GoodGroup`: criterion lines classified as
-non-totals, total lines as totals, no marker), the parse result of the whole text is exactly the
-rendered iterations.  Missing for the full statement: the proof that the rendered ReBenchLog /
-ValidationLog / PlainSecondsLog lines satisfy `GoodGroup` (trusted; exercised by the correspondence). -/
-theorem c05_parse_render_roundtrip_partial (a : Adapter) (cfg : Cfg) (inv : Nat) (text : List Char) (gs : List Group)
-    (ha : (a = .rebenchLog ∧ cfg = cfgRebenchLog false) ∨ (a = .plainSeconds ∧ cfg = cfgPlainSeconds false) ∨
-          (a = .timeFormatted ∧ cfg = cfgTimeFormatted false))
-    (hne : gs ≠ []) (hg : ∀ g ∈ gs, GoodGroup cfg g)
-    (hls : (splitLines text).filter (fun l => !cfg.noise l) = gs.flatMap Group.lines) :
-    parse a false inv text = .out (.ok (groupsExpected cfg inv 1 gs)) := by
-  rcases ha with ⟨rfl, rfl⟩ | ⟨rfl, rfl⟩ | ⟨rfl, rfl⟩
-  · exact congrArg Result.out (c05_collect_roundtrip _ preNonTotal_rebenchLog inv _ gs hne hg hls)
-  · exact congrArg Result.out (c05_collect_roundtrip _ preNonTotal_plainSeconds inv _ gs hne hg hls)
-  · exact congrArg Result.out (c05_collect_roundtrip _ preNonTotal_timeFormatted inv _ gs hne hg hls)
-
 /-- the hypothesis `GoodGroup` holds for concrete documented ReBenchLog lines (prefix, criterion,
 exponent, microseconds, CR) -/
 example : GoodGroup (cfgRebenchLog false)
     (["Savina.Chameneos: trace size:    3903398byte\r".toList, "pre: B alloc: iterations=1 runtime: 1.5e3us".toList],
      "[12:00] INFO: LanguageFeatures.Dispatch total: iterations=2342 runtime: .5ms\r".toList) := by
   exact goodGroup_of_dec _ _ (by decide +kernel) (by decide +kernel) (by decide +kernel)
+
+
+/-! ## numerals, PlainSecondsLog, `time -p` -/
+
+/-- "every numeral shape the documented grammar allows (integers, decimals, leading dot, exponents)":
+the text a pattern captures for a numeral has the numeral's value — `D+`, `D+.D*`, `.D+`, each with an
+optional `(e|E)[+-]?D+` -/
+theorem c05_numeral_value (n : Numeral) (h : n.Valid) : numeralVal n.render = n.value :=
+  numeralVal_render n h
+
+example : (Numeral.mk "12".toList (some "50".toList) (some ('e', some '-', "3".toList))).Valid := by
+  constructor
+  · decide
+  · intro f hf; cases hf; decide
+  · exact Or.inl (by decide)
+  · intro e sg ds h; cases h
+    exact ⟨by decide, by intro s hs; cases hs; exact Or.inr rfl, by decide, by decide⟩
+
+example : (Numeral.mk [] (some "5".toList) none).Valid := by
+  constructor
+  · decide
+  · intro f hf; cases hf; decide
+  · exact Or.inr ⟨_, rfl, by decide⟩
+  · intro e sg ds h; cases h
+
+example : (Numeral.mk "7".toList (some []) (some ('E', none, "2".toList))).Valid := by
+  constructor
+  · decide
+  · intro f hf; cases hf; decide
+  · exact Or.inl (by decide)
+  · intro e sg ds h; cases h
+    exact ⟨by decide, (by intro s hs; cases hs), by decide, by decide⟩
+
+/-- `classify_render`, PlainSecondsLog: a line with a documented numeral (any shape), surrounded by any
+white space `float()` strips (blanks, the carriage return of CR-LF), is the total, seconds → ms (`·1000`) -/
+theorem c05_classify_render_plain (n : Numeral) (h : n.Valid) (ws1 ws2 : List Char)
+    (h1 : ∀ c ∈ ws1, isFloatSpace c = true) (h2 : ∀ c ∈ ws2, isFloatSpace c = true) :
+    classifyPlainSeconds (ws1 ++ (n.render ++ ws2)) =
+      some { pre := [], main := { criterion := totalName, unit := ms, value := .flt (n.value * 1000) } } := by
+  simp [classifyPlainSeconds, pyFloat_render n h ws1 ws2 h1 h2, Val.mul]
+
+/-- `classify_render`, `time -p`: `word blanks D.D` and `word blanks Dm D.Ds` (the shell's `time`); the
+word `real` is the total, any other word is its own criterion; value = (minutes · 60 + seconds) · 1000 -/
+theorem c05_classify_render_time_p (x : TPLine) (hx : x.Valid) :
+    classifyTimeP x.render = some (timeCrit x.w, .flt x.value) :=
+  classifyTimeP_render x hx
+
+example : (TPLine.mk "real".toList "\t".toList (some "0".toList) "1".toList "500".toList "\r".toList).Valid := by
+  constructor
+  · exact ⟨by decide, by decide⟩
+  · exact ⟨by decide, by decide⟩
+  · intro m hm; cases hm; exact ⟨by decide, by decide⟩
+  · exact ⟨by decide, by decide⟩
+  · exact ⟨by decide, by decide⟩
+  · intro h; cases h
+
+example : (TPLine.mk "user".toList " ".toList none "1".toList "50".toList []).Valid := by
+  constructor
+  · exact ⟨by decide, by decide⟩
+  · exact ⟨by decide, by decide⟩
+  · intro m hm; cases hm
+  · exact ⟨by decide, by decide⟩
+  · exact ⟨by decide, by decide⟩
+  · intro _; exact stopsAt_nil _
+
+/-- `parse_render_roundtrip` for PlainSecondsLog: numerals of any documented shape, one per line,
+surrounded by white space, interleaved with noise, no failure marker: exactly those values · 1000, in
+order, numbered 1..k -/
+theorem c05_plain_roundtrip (inv : Nat) (ls : List Line)
+    (xs : List (Numeral × List Char × List Char)) (hne : xs ≠ [])
+    (hv : ∀ x ∈ xs, x.1.Valid ∧ (∀ c ∈ x.2.1, isFloatSpace c = true) ∧ (∀ c ∈ x.2.2, isFloatSpace c = true) ∧
+      (cfgPlainSeconds false).marker (x.2.1 ++ (x.1.render ++ x.2.2)) = false)
+    (hls : ls.filter (fun l => !(cfgPlainSeconds false).noise l) = xs.map (fun x => x.2.1 ++ (x.1.render ++ x.2.2))) :
+    collect (cfgPlainSeconds false) inv ls =
+      .ok (freshExpected inv 1 (xs.map (fun x => (ms, .flt (x.1.value * 1000))))) := by
+  have hcl : ∀ x ∈ xs.map (fun x => (x.2.1 ++ (x.1.render ++ x.2.2), (ms, Val.flt (x.1.value * 1000)))),
+      (cfgPlainSeconds false).classify x.1 =
+        some { pre := [], main := { criterion := totalName, unit := x.2.1, value := x.2.2 } } := by
+    intro y hy
+    obtain ⟨x, hx, rfl⟩ := List.mem_map.mp hy
+    obtain ⟨h0, h1, h2, _⟩ := hv x hx
+    exact c05_classify_render_plain x.1 h0 x.2.1 x.2.2 h1 h2
+  have hge := groupsExpected_totals (cfgPlainSeconds false) inv _ hcl 1
+  have h := c05_collect_roundtrip (cfgPlainSeconds false) preNonTotal_plainSeconds inv ls
+    (xs.map (fun x => (([] : List Line), x.2.1 ++ (x.1.render ++ x.2.2)))) (by simpa using hne)
+    (by
+      intro g hg
+      obtain ⟨x, hx, rfl⟩ := List.mem_map.mp hg
+      obtain ⟨h0, h1, h2, hm⟩ := hv x hx
+      refine ⟨?_, (by intro l hl; cases hl), ⟨_, c05_classify_render_plain x.1 h0 x.2.1 x.2.2 h1 h2, rfl⟩⟩
+      intro l hl
+      simp only [Group.lines, List.nil_append, List.mem_cons, List.not_mem_nil, or_false] at hl
+      subst hl
+      exact ⟨rfl, hm⟩)
+    (by
+      rw [hls]
+      clear hls hv hcl hge hne
+      induction xs with
+      | nil => rfl
+      | cons x xs ih => simp [Group.lines, List.flatMap_cons, ih])
+  rw [h]
+  simp only [List.map_map, Function.comp_def] at hge
+  simp only [List.map_map, Function.comp_def, hge]
+
+
+
+/-- `parse_render_roundtrip` for `time -p`: the lines of one invocation in any order, interleaved with
+noise, no failure marker: one data point that holds every time that is not `real`, in order, and then
+the (last) `real` time as the total; without a `real` line the output is rejected -/
+theorem c05_time_p_roundtrip (inv : Nat) (ls : List Line) (xs : List TPLine)
+    (hv : ∀ x ∈ xs, x.Valid ∧ checkForError false [] x.render = false)
+    (hls : ls.filter (fun l => checkForError false [] l || (classifyTimeP l).isSome) = xs.map TPLine.render) :
+    collectTimeP (checkForError false []) classifyTimeP inv ls =
+      match tpTotal inv (xs.map (fun x => (timeCrit x.w, Val.flt x.value))) none with
+      | some t => .ok [tpOthers inv (xs.map (fun x => (timeCrit x.w, Val.flt x.value))) ++ [t]]
+      | none => .notParseable := by
+  rw [c05_collect_ignores_noise_time_p, hls]
+  have h := timePLoop_items (checkForError false []) classifyTimeP inv
+    (xs.map (fun x => (x.render, (timeCrit x.w, Val.flt x.value))))
+    { it := 1, cur := DP.empty, totalMeasure := none, done := [] }
+    ⟨rfl, rfl, open_empty inv 1, by intro t h; cases h⟩
+    (by
+      intro y hy
+      obtain ⟨x, hx, rfl⟩ := List.mem_map.mp hy
+      exact ⟨(hv x hx).2, c05_classify_render_time_p x (hv x hx).1⟩)
+  simp only [List.map_map, Function.comp_def, DP.empty, List.nil_append] at h
+  unfold collectTimeP
+  exact h
+
+/-- non-vacuity and the shape of the result: POSIX `time -p` output -/
+example : collectTimeP (checkForError false []) classifyTimeP 2
+    (splitLines "real 1.50\nuser 1.00\nsys 0.25\n".toList) =
+    .ok [[{ invocation := 2, iteration := 1, criterion := "user".toList, unit := msUnit, value := .flt 1000 },
+          { invocation := 2, iteration := 1, criterion := "sys".toList, unit := msUnit, value := .flt 250 },
+          { invocation := 2, iteration := 1, criterion := totalName, unit := msUnit, value := .flt 1500 }]] := by
+  decide +kernel
+
+
+
+/-! ## ReBenchLog and ValidationLog -/
+
+/-- `classify_render`, ReBenchLog, the line `[prefix: ]name[ crit]: iterations=N runtime: NUM(m|u)s`:
+for every name without white space that does not end in a colon, every criterion word `[\w.]+`, every
+counter, every numeral of the documented shapes, both units, LF or CR-LF, without prefix or after a
+prefix `w: ` for **any** text `w` (every alternative of `(?:.*: )?` that takes a longer prefix fails) —
+the criterion (the word, `total` when there is none), unit ms, microseconds divided by 1000 -/
+theorem c05_rebench_classify_render (x : RLine) (hx : x.Valid) (pre : Option (List Char)) :
+    classifyRebenchLog (x.render pre) =
+      some { pre := [], main := { criterion := x.criterion, unit := ms, value := .flt x.value } } :=
+  x.classify hx pre
+
+/-- the documented examples satisfy the well-formedness predicates -/
+example : (RLine.mk "LanguageFeatures.Dispatch".toList (some "total".toList) "2342".toList
+    (Numeral.mk "557".toList none none) 'm' []).Valid := by
+  refine ⟨⟨by decide, by decide, by decide⟩, ?_, ⟨by decide, by decide⟩, ?_, by decide, Or.inl rfl⟩
+  · intro cw h; cases h; exact ⟨by decide, by decide⟩
+  · exact ⟨by decide, (by intro f hf; cases hf), Or.inl (by decide), (by intro e sg ds h; cases h)⟩
+
+example : (RLine.mk "Savina.Chameneos".toList none "1".toList
+    (Numeral.mk "64208".toList (some "5".toList) (some ('e', some '-', "1".toList))) 'u' ['\r']).Valid := by
+  refine ⟨⟨by decide, by decide, by decide⟩, ?_, ⟨by decide, by decide⟩, ?_, by decide, Or.inr rfl⟩
+  · intro cw h; cases h
+  · refine ⟨by decide, (by intro f hf; cases hf; decide), Or.inl (by decide), ?_⟩
+    intro e sg ds h; cases h
+    exact ⟨by decide, (by intro s hs; cases hs; exact Or.inr rfl), by decide, by decide⟩
+
+/-- `classify_render`, ReBenchLog, the extra-criterion line `[prefix: ]name: criterion:[blanks]NUMunit`:
+criterion of 1–30 characters without `:` and `=`, unit `[a-zA-Z]+`, any numeral shape, LF or CR-LF;
+without prefix, or after a prefix `w: ` whose word has no colon (and then no `=` in the name) — the
+criterion, the unit and the value as printed -/
+theorem c05_rebench_extra_classify_render (x : XLine) (hx : x.Valid) (pre : Option (List Char))
+    (hp : x.PreOK pre) :
+    classifyRebenchLog (x.render pre) =
+      some { pre := [], main := { criterion := x.crit, unit := x.unit, value := .flt x.num.value } } :=
+  x.classify hx pre hp
+
+example : (XLine.mk "Savina.Chameneos".toList "trace size".toList "    ".toList
+    (Numeral.mk "3903398".toList none none) "byte".toList []).Valid := by
+  refine ⟨⟨by decide, by decide, by decide⟩, by decide, by decide, by decide, by decide, ?_, by decide,
+    by decide, Or.inl rfl⟩
+  exact ⟨by decide, (by intro f hf; cases hf), Or.inl (by decide), (by intro e sg ds h; cases h)⟩
+
+/-- `classify_render`, ValidationLog, the line
+`[prefix: ]name[ crit]: iterations=N runtime: D(m|u)s success: (true|false)`: name and criterion from
+`[\w.]+`, any prefix text: `Success` (bool) and then the criterion / total in ms -/
+theorem c05_validation_classify_render (x : VLine) (hx : x.Valid) (pre : Option (List Char)) :
+    classifyValidation (x.render pre) =
+      some { pre := [{ criterion := "Success".toList, unit := "bool".toList, value := .bool x.ok }],
+             main := { criterion := x.criterion, unit := ms, value := .flt x.value } } :=
+  x.classify hx pre
+
+example : (VLine.mk "Harness.Bench".toList (some "total".toList) "1".toList "5125".toList 'u' true ['\r']).Valid := by
+  refine ⟨⟨by decide, by decide⟩, ?_, ⟨by decide, by decide⟩, ⟨by decide, by decide⟩, by decide, Or.inr rfl⟩
+  intro cw h; cases h; exact ⟨by decide, by decide⟩
+
+/-- `classify_render`, ValidationLog, the summary line `[Total] A#D M#D P#D`: three counts and a total of 0 -/
+theorem c05_validation_actors_classify_render (x : ALine) (hx : x.Valid) :
+    classifyValidation x.render =
+      some { pre := [{ criterion := "Actors".toList, unit := "count".toList, value := .int (digitsNat x.a) },
+                     { criterion := "Messages".toList, unit := "count".toList, value := .int (digitsNat x.m) },
+                     { criterion := "Promises".toList, unit := "count".toList, value := .int (digitsNat x.p) }],
+             main := { criterion := totalName, unit := ms, value := .int 0 } } :=
+  x.classify hx
+
+/-- `parse_render_roundtrip`, generic and at full strength: iterations given as rendered lines with
+their meaning (`Rendered` = the `classify_render` fact of each line), interleaved with noise -/
+theorem c05_spec_roundtrip (cfg : Cfg) (hc : PreNonTotal cfg.classify) (inv : Nat) (ls : List Line)
+    (gs : List SpecGroup) (hne : gs ≠ []) (hg : ∀ g ∈ gs, g.Good cfg)
+    (hls : ls.filter (fun l => !cfg.noise l) = gs.flatMap (fun g => g.pairs.map (·.1))) :
+    collect cfg inv ls = .ok (specExpected inv 1 gs) := by
+  have h := c05_collect_roundtrip cfg hc inv ls (gs.map SpecGroup.toGroup) (by simpa using hne)
+    (by intro g hgm; obtain ⟨s, hs, rfl⟩ := List.mem_map.mp hgm; exact specGroup_good cfg s (hg s hs))
+    (by
+      rw [hls]
+      clear hls hne hg
+      induction gs with
+      | nil => rfl
+      | cons g gs ih =>
+        simp only [List.flatMap_cons, List.map_cons, ih]
+        congr 1
+        simp [SpecGroup.toGroup, Group.lines, SpecGroup.pairs])
+  rw [h, specExpected_eq cfg inv gs hg 1]
+
+
+
+/-- a line of ReBenchLog output -/
+inductive RBLine where
+  | log (x : RLine) (pre : Option (List Char))
+  | extra (x : XLine) (pre : Option (List Char))
+
+def RBLine.render : RBLine → Line
+  | .log x pre => x.render pre
+  | .extra x pre => x.render pre
+
+/-- what the line means -/
+def RBLine.lm : RBLine → LineMeas
+  | .log x _ => { pre := [], main := { criterion := x.criterion, unit := ms, value := .flt x.value } }
+  | .extra x _ => { pre := [], main := { criterion := x.crit, unit := x.unit, value := .flt x.num.value } }
+
+/-- documented shape, no failure marker -/
+def RBLine.Valid : RBLine → Prop
+  | .log x pre => x.Valid ∧ (cfgRebenchLog false).marker (x.render pre) = false
+  | .extra x pre => x.Valid ∧ x.PreOK pre ∧ (cfgRebenchLog false).marker (x.render pre) = false
+
+theorem RBLine.rendered (l : RBLine) (h : l.Valid) : Rendered (cfgRebenchLog false) l.render l.lm := by
+  cases l with
+  | log x pre => exact ⟨rfl, h.2, c05_rebench_classify_render x h.1 pre⟩
+  | extra x pre => exact ⟨rfl, h.2.2, c05_rebench_extra_classify_render x h.1 pre h.2.1⟩
+
+def RBLine.spec (l : RBLine) : Line × LineMeas := (l.render, l.lm)
+
+/-- `parse_render_roundtrip`, ReBenchLog: any sequence of iterations — lines with further criteria (of
+either kind), then the line with the total (of either kind) — with any documented names, criteria,
+numerals, units, prefixes and line endings, interleaved with noise, without failure markers, parses to
+exactly those iterations: criteria in order, values converted, numbered 1..k, stamped with the invocation -/
+theorem c05_parse_render_roundtrip_rebench (inv : Nat) (text : List Char) (gs : List (List RBLine × RBLine))
+    (hne : gs ≠ []) (hv : ∀ g ∈ gs, (∀ l ∈ g.1, l.Valid ∧ l.lm.main.isTotal = false) ∧ g.2.Valid ∧ g.2.lm.main.isTotal = true)
+    (hls : (splitLines text).filter (fun l => !(cfgRebenchLog false).noise l) =
+      gs.flatMap (fun g => (g.1 ++ [g.2]).map RBLine.render)) :
+    parse .rebenchLog false inv text =
+      .out (.ok (specExpected inv 1 (gs.map (fun g => (g.1.map RBLine.spec, g.2.spec))))) := by
+  apply congrArg Result.out
+  apply c05_spec_roundtrip _ preNonTotal_rebenchLog inv _ _ (by simpa using hne)
+  · intro s hs
+    obtain ⟨g, hg, rfl⟩ := List.mem_map.mp hs
+    obtain ⟨h1, h2, h3⟩ := hv g hg
+    refine ⟨?_, ?_, h3⟩
+    · intro p hp
+      simp only [SpecGroup.pairs, List.mem_append, List.mem_map, List.mem_cons, List.not_mem_nil, or_false] at hp
+      rcases hp with ⟨l, hl, rfl⟩ | rfl
+      · exact l.rendered (h1 l hl).1
+      · exact g.2.rendered h2
+    · intro p hp
+      obtain ⟨l, hl, rfl⟩ := List.mem_map.mp hp
+      exact (h1 l hl).2
+  · rw [hls]
+    clear hls hv hne
+    induction gs with
+    | nil => rfl
+    | cons g gs ih =>
+      simp only [List.flatMap_cons, List.map_cons, ih]
+      congr 1
+      simp [SpecGroup.pairs, RBLine.spec, List.map_map, Function.comp_def]
+
+/-- a line of ValidationLog output -/
+inductive VBLine where
+  | log (x : VLine) (pre : Option (List Char))
+  | actors (x : ALine)
+
+def VBLine.render : VBLine → Line
+  | .log x pre => x.render pre
+  | .actors x => x.render
+
+def VBLine.lm : VBLine → LineMeas
+  | .log x _ => { pre := [{ criterion := "Success".toList, unit := "bool".toList, value := .bool x.ok }],
+                  main := { criterion := x.criterion, unit := ms, value := .flt x.value } }
+  | .actors x =>
+    { pre := [{ criterion := "Actors".toList, unit := "count".toList, value := .int (digitsNat x.a) },
+              { criterion := "Messages".toList, unit := "count".toList, value := .int (digitsNat x.m) },
+              { criterion := "Promises".toList, unit := "count".toList, value := .int (digitsNat x.p) }],
+      main := { criterion := totalName, unit := ms, value := .int 0 } }
+
+/-- documented shape, no failure marker, counters that `int()` accepts -/
+def VBLine.Valid : VBLine → Prop
+  | .log x pre => x.Valid ∧ (cfgValidation false).marker (x.render pre) = false
+  | .actors x => x.Valid ∧ (cfgValidation false).marker x.render = false ∧
+      x.a.length ≤ intMaxStrDigits ∧ x.m.length ≤ intMaxStrDigits ∧ x.p.length ≤ intMaxStrDigits
+
+theorem VBLine.rendered (l : VBLine) (h : l.Valid) : Rendered (cfgValidation false) l.render l.lm := by
+  cases l with
+  | log x pre => exact ⟨rfl, h.2, c05_validation_classify_render x h.1 pre⟩
+  | actors x => exact ⟨rfl, h.2.1, c05_validation_actors_classify_render x h.1⟩
+
+def VBLine.spec (l : VBLine) : Line × LineMeas := (l.render, l.lm)
+
+theorem VBLine.notOverlong (l : VBLine) (h : l.Valid) : actorsOverlong l.render = false := by
+  cases l with
+  | log x pre =>
+    simp [actorsOverlong, actorsOverlongWith, VBLine.render, x.pmatch h.1 pre]
+  | actors x =>
+    obtain ⟨hx, _, ha, hm, hp⟩ := h
+    simp only [actorsOverlong, actorsOverlongWith, VBLine.render, x.noValidation hx, x.pmatch hx, capD, cap]
+    simp [Nat.not_lt.mpr ha, Nat.not_lt.mpr hm, Nat.not_lt.mpr hp]
+
+theorem beforeMarker_subset (marker : Line → Bool) (ls : List Line) : ∀ l ∈ beforeMarker marker ls, l ∈ ls := by
+  induction ls with
+  | nil => intro l hl; simp [beforeMarker] at hl
+  | cons a r ih =>
+    intro l hl
+    simp only [beforeMarker] at hl
+    split at hl
+    · simp at hl
+    · rcases List.mem_cons.mp hl with rfl | h
+      · simp
+      · exact List.mem_cons_of_mem _ (ih l h)
+
+/-- `parse_render_roundtrip`, ValidationLog: iterations whose total is a result line or the actors
+summary line, with further criteria lines before it; every line contributes `Success` and its
+criterion; the counters of a summary line have at most 4300 digits (see C12's known finding) -/
+theorem c05_parse_render_roundtrip_validation (inv : Nat) (text : List Char) (gs : List (List VBLine × VBLine))
+    (hne : gs ≠ []) (hv : ∀ g ∈ gs, (∀ l ∈ g.1, l.Valid ∧ l.lm.main.isTotal = false) ∧ g.2.Valid ∧ g.2.lm.main.isTotal = true)
+    (hls : (splitLines text).filter (fun l => !(cfgValidation false).noise l) =
+      gs.flatMap (fun g => (g.1 ++ [g.2]).map VBLine.render)) :
+    parse .validation false inv text =
+      .out (.ok (specExpected inv 1 (gs.map (fun g => (g.1.map VBLine.spec, g.2.spec))))) := by
+  -- no line is an over-long summary line
+  have hno : (beforeMarker (cfgValidation false).marker (splitLines text)).any actorsOverlong = false := by
+    rw [List.any_eq_false]
+    intro l hl
+    have hl' := beforeMarker_subset _ _ l hl
+    by_cases hn : (cfgValidation false).noise l = true
+    · have hc : classifyValidation l = none := by
+        simp only [Cfg.noise, cfgValidation, Bool.and_eq_true] at hn
+        simpa using hn.2
+      unfold classifyValidation at hc
+      simp only [actorsOverlong, actorsOverlongWith]
+      cases h1 : reValidation.pmatch l with
+      | some c => simp [h1] at hc
+      | none =>
+        cases h2 : reActors.pmatch l with
+        | some c => simp [h1, h2] at hc
+        | none => simp
+    · have : l ∈ (splitLines text).filter (fun l => !(cfgValidation false).noise l) := by
+        simp [List.mem_filter, hl', hn]
+      rw [hls] at this
+      obtain ⟨g, hg, hlg⟩ := List.mem_flatMap.mp this
+      obtain ⟨v, hv', rfl⟩ := List.mem_map.mp hlg
+      obtain ⟨h1, h2, _⟩ := hv g hg
+      have hval : v.Valid := by
+        rcases List.mem_append.mp hv' with h | h
+        · exact (h1 v h).1
+        · simp at h; subst h; exact h2
+      simp [v.notOverlong hval]
+  simp only [parse, hno, Bool.false_eq_true, if_false]
+  apply congrArg Result.out
+  apply c05_spec_roundtrip _ preNonTotal_validation inv _ _ (by simpa using hne)
+  · intro s hs
+    obtain ⟨g, hg, rfl⟩ := List.mem_map.mp hs
+    obtain ⟨h1, h2, h3⟩ := hv g hg
+    refine ⟨?_, ?_, h3⟩
+    · intro p hp
+      simp only [SpecGroup.pairs, List.mem_append, List.mem_map, List.mem_cons, List.not_mem_nil, or_false] at hp
+      rcases hp with ⟨l, hl, rfl⟩ | rfl
+      · exact l.rendered (h1 l hl).1
+      · exact g.2.rendered h2
+    · intro p hp
+      obtain ⟨l, hl, rfl⟩ := List.mem_map.mp hp
+      exact (h1 l hl).2
+  · rw [hls]
+    clear hls hv hne hno
+    induction gs with
+    | nil => rfl
+    | cons g gs ih =>
+      simp only [List.flatMap_cons, List.map_cons, ih]
+      congr 1
+      simp [SpecGroup.pairs, VBLine.spec, List.map_map, Function.comp_def]
+
+
+
+/-- non-vacuity of `c05_parse_render_roundtrip_rebench`: the documented example with an extra criterion,
+a noise line and CR-LF -/
+example :
+    let x : XLine := XLine.mk "Savina.Chameneos".toList "trace size".toList "    ".toList
+      (Numeral.mk "3903398".toList none none) "byte".toList ['\r']
+    let r : RLine := RLine.mk "Savina.Chameneos".toList none "1".toList (Numeral.mk "64208".toList none none) 'u' ['\r']
+    let text := "Savina.Chameneos: trace size:    3903398byte\r\nwarming up\r\npre: Savina.Chameneos: iterations=1 runtime: 64208us\r\n".toList
+    let gs : List (List RBLine × RBLine) := [([RBLine.extra x none], RBLine.log r (some "pre".toList))]
+    (∀ g ∈ gs, (∀ l ∈ g.1, l.Valid ∧ l.lm.main.isTotal = false) ∧ g.2.Valid ∧ g.2.lm.main.isTotal = true) ∧
+    (splitLines text).filter (fun l => !(cfgRebenchLog false).noise l) =
+      gs.flatMap (fun g => (g.1 ++ [g.2]).map RBLine.render) := by
+  intro x r text gs
+  have hx : x.Valid := by
+    refine ⟨⟨by decide, by decide, by decide⟩, by decide, by decide, by decide, by decide, ?_, by decide,
+      by decide, Or.inr rfl⟩
+    exact ⟨by decide, (by intro f hf; cases hf), Or.inl (by decide), (by intro e sg ds h; cases h)⟩
+  have hr : r.Valid := by
+    refine ⟨⟨by decide, by decide, by decide⟩, (by intro cw h; cases h), ⟨by decide, by decide⟩, ?_, by decide, Or.inr rfl⟩
+    exact ⟨by decide, (by intro f hf; cases hf), Or.inl (by decide), (by intro e sg ds h; cases h)⟩
+  constructor
+  · intro g hg
+    simp only [gs, List.mem_cons, List.not_mem_nil, or_false] at hg
+    subst hg
+    refine ⟨?_, ⟨hr, by decide +kernel⟩, by decide +kernel⟩
+    intro l hl
+    simp only [List.mem_cons, List.not_mem_nil, or_false] at hl
+    subst hl
+    exact ⟨⟨hx, (by intro w hw; cases hw), by decide +kernel⟩, by decide +kernel⟩
+  · decide +kernel
+
+/-! ## the same at the level of `parse_data` for the other adapters -/
+
+theorem c05_parse_render_roundtrip_savina (inv : Nat) (text : List Char) (xs : List (SavinaLine × List Char))
+    (hne : xs ≠ []) (hv : ∀ x ∈ xs, x.1.Valid ∧ (cfgSavina false).marker (x.1.render ++ x.2) = false)
+    (hls : (splitLines text).filter (fun l => !(cfgSavina false).noise l) = xs.map (fun x => x.1.render ++ x.2)) :
+    parse .savina false inv text =
+      .out (.ok (freshExpected inv 1 (xs.map (fun x => (ms, .flt (decVal x.1.ip x.1.fp)))))) :=
+  congrArg Result.out (c05_savina_roundtrip inv _ xs hne hv hls)
+
+theorem c05_parse_render_roundtrip_jmh (inv : Nat) (text : List Char) (xs : List (JMHLine × List Char))
+    (hne : xs ≠ [])
+    (hv : ∀ x ∈ xs, x.1.Valid ∧ crTail x.2 ∧ (cfgJMH false).stop (x.1.render ++ x.2) = false ∧
+      (cfgJMH false).marker (x.1.render ++ x.2) = false)
+    (hls : (splitLines text).filter (fun l => !(cfgJMH false).noise l) = xs.map (fun x => x.1.render ++ x.2)) :
+    parse .jmh false inv text = .out (.ok (freshExpected inv 1 (xs.map (fun x => (x.1.unit, .flt x.1.value))))) :=
+  congrArg Result.out (c05_jmh_roundtrip inv _ xs hne hv hls)
+
+theorem c05_parse_render_roundtrip_time_formatted (inv : Nat) (text : List Char) (gs : List Group) (hne : gs ≠ [])
+    (hg : ∀ g ∈ gs, TFGroup g)
+    (hls : (splitLines text).filter (fun l => !(cfgTimeFormatted false).noise l) = gs.flatMap Group.lines) :
+    parse .timeFormatted false inv text = .out (.ok (groupsExpected (cfgTimeFormatted false) inv 1 gs)) :=
+  congrArg Result.out (c05_time_formatted_roundtrip inv _ gs hne hg hls)
+
+theorem c05_parse_render_roundtrip_plain (inv : Nat) (text : List Char)
+    (xs : List (Numeral × List Char × List Char)) (hne : xs ≠ [])
+    (hv : ∀ x ∈ xs, x.1.Valid ∧ (∀ c ∈ x.2.1, isFloatSpace c = true) ∧ (∀ c ∈ x.2.2, isFloatSpace c = true) ∧
+      (cfgPlainSeconds false).marker (x.2.1 ++ (x.1.render ++ x.2.2)) = false)
+    (hls : (splitLines text).filter (fun l => !(cfgPlainSeconds false).noise l) =
+      xs.map (fun x => x.2.1 ++ (x.1.render ++ x.2.2))) :
+    parse .plainSeconds false inv text =
+      .out (.ok (freshExpected inv 1 (xs.map (fun x => (ms, .flt (x.1.value * 1000)))))) :=
+  congrArg Result.out (c05_plain_roundtrip inv _ xs hne hv hls)
+
+theorem c05_parse_render_roundtrip_time_p (inv : Nat) (text : List Char) (xs : List TPLine)
+    (hv : ∀ x ∈ xs, x.Valid ∧ checkForError false [] x.render = false)
+    (hls : (splitLines text).filter (fun l => checkForError false [] l || (classifyTimeP l).isSome) =
+      xs.map TPLine.render) :
+    parse .timeP false inv text = .out
+      (match tpTotal inv (xs.map (fun x => (timeCrit x.w, Val.flt x.value))) none with
+       | some t => .ok [tpOthers inv (xs.map (fun x => (timeCrit x.w, Val.flt x.value))) ++ [t]]
+       | none => .notParseable) :=
+  congrArg Result.out (c05_time_p_roundtrip inv _ xs hv hls)
+
 
 /-! ## unit conversion -/
 
